@@ -197,7 +197,15 @@ def expect08 (b : Buf) (regs : RegMap) (row col : Nat) (xtop xrows : Int) (o : O
         let b' := splitLines (flatT.take s ++ flatT.drop e)
         some { text := some b', cur := some (restPos b' sr sc), regs := some regs' }
   else if o.cmd == 112 || o.cmd == 80 then
-    match regGet regs o.reg with
+    -- the computed registers: "# the line number, "^ the column, "; the current line
+    let digits (k : Nat) : List Nat := (toString k).toList.map (·.toNat)
+    let src : Option (Nat × List Nat) :=
+      if o.reg == 35 then some (0, digits (row + 1))
+      else if o.reg == 94 then some (0, digits (col + 1))
+      else regGet regs o.reg
+    -- "; (the current line without its newline, flagged line-wise) is an ex-level convenience: not judged
+    if o.reg == 59 then none else
+    match src with
     | none => some same
     | some (lnm, t) =>
       if t.isEmpty then some same else
